@@ -332,9 +332,56 @@ def _config_file(text):
     return str(p)
 
 
-def _flake(case, seed, nv, store=None, seed_v=None, cfg=0, start=None, explicit=False):
-    """`explicit`: the initial state is given as an argument (the reference objects); otherwise the constructor's
-    default `initialStates` is used, i.e. the vials start at the programme's start temperature"""
+# nested keys of the YAML configuration that cases override; the reference objects spell ALL of them out
+YAML_KEYS = ["solution.solid_fraction", "water.cp_w", "kinetics.b"]
+_yaml_defaults = {}
+
+
+def _yaml_text(flat):
+    import yaml
+
+    tree = {}
+    for key, val in flat.items():
+        a, b = key.split(".")
+        tree.setdefault(a, {})[b] = val
+    return yaml.safe_dump(tree)
+
+
+def _yaml_for(over, explicit):
+    """configPath for an object: the overrides only (object under test; None = packaged defaults), or - for the
+    reference - every key of YAML_KEYS spelt out: packaged default (read from the YAML file itself) or override"""
+    if not explicit:
+        return _config_file(_yaml_text(over)) if over else None
+    if not _yaml_defaults:
+        import yaml
+
+        with open(core.REPO / "src" / "ethz_snow" / "config" / "snowConfig_default.yaml") as fh:
+            tree = yaml.safe_load(fh)
+        for key in YAML_KEYS:
+            a, b = key.split(".")
+            _yaml_defaults[key] = tree[a][b]
+    flat = dict(_yaml_defaults)
+    flat.update(over or {})
+    return _config_file(_yaml_text(flat))
+
+
+def _init_temp(case, explicit, default):
+    """the `initialStates` argument: None = the constructor's default.  `init = {form, value}`: the initial
+    temperature as a one-element list / tuple / array or a numpy scalar; the reference gives it as a plain float"""
+    init = case.get("init")
+    if init is None:
+        return {"temp": default, "sigma": None} if explicit else None
+    v = init["value"]
+    if explicit:
+        return {"temp": float(v), "sigma": None}
+    temp = {"list": [v], "tuple": (v,), "array": np.array([v], dtype=float), "npfloat": np.float64(v),
+            "intarray": np.array([int(v)])}[init["form"]]
+    return {"temp": temp, "sigma": None}
+
+
+def _flake(case, seed, nv, store=None, seed_v=None, cfg=0, start=None, explicit=False, yamlover=None):
+    """`explicit`: the reference objects - initial state and configuration values are given as arguments; otherwise
+    the constructor's default `initialStates` and the packaged default configuration (plus the overrides) are used"""
     from ethz_snow.snowflake import Snowflake
 
     spec = _spec(case, cfg, start)
@@ -344,17 +391,22 @@ def _flake(case, seed, nv, store=None, seed_v=None, cfg=0, start=None, explicit=
     if seed_v is not None:
         kw["seed_v"] = seed_v
     kw.setdefault("dt", spec["dt"])
-    if explicit:
-        kw["initialStates"] = {"temp": spec["start"], "sigma": None}
+    ini = _init_temp(case, explicit, spec["start"])
+    if ini is not None:
+        kw["initialStates"] = ini
+    if "configPath" not in kw:
+        path = _yaml_for(yamlover, explicit)
+        if path:
+            kw["configPath"] = path
     return Snowflake(k=_k(case), N_vials=tuple(nv), seed=seed, opcond=_opcond(spec), storeStates=store, **kw)
 
 
-def _fresh(case, seed, nv, cache, seed_v=None, cfg=0, start=None):
-    key = (seed, tuple(nv), seed_v, cfg, start)
+def _fresh(case, seed, nv, cache, seed_v=None, cfg=0, start=None, yamlover=None):
+    key = (seed, tuple(nv), seed_v, cfg, start, core.json.dumps(yamlover, sort_keys=True))
     if key not in cache:
         # the reference states its initial temperature explicitly: nothing an earlier object of this process may
         # have left in a shared default can reach it
-        S = _flake(case, seed, nv, seed_v=seed_v, cfg=cfg, start=start, explicit=True)
+        S = _flake(case, seed, nv, seed_v=seed_v, cfg=cfg, start=start, explicit=True, yamlover=yamlover)
         S.run()
         cache[key] = _digest(S.stats)
     return cache[key]
@@ -365,7 +417,7 @@ def _run_history(case, store=None):
     ops_obs = []
     fresh = {}
     cfg = 0
-    n_new, start = 0, None
+    n_new, start, yamlover = 0, None, None
     for op in case["ops"]:
         mark = _begin()
         o = {"op": op}
@@ -373,8 +425,10 @@ def _run_history(case, store=None):
             # successive objects of one history (one process) are built for different start temperatures
             starts = case.get("starts") or [None]
             start = starts[n_new % len(starts)]
+            configs = case.get("configs") or [None]
+            yamlover = configs[n_new % len(configs)]
             n_new += 1
-            S = _flake(case, op[1], op[2:5], store, start=start)
+            S = _flake(case, op[1], op[2:5], store, start=start, yamlover=yamlover)
             cfg = 0
         elif op[0] == "editCfg":
             cfg = op[1]
@@ -405,7 +459,8 @@ def _run_history(case, store=None):
             o["xi"] = next(([e[1], e[2]] for e in evs if e[0] == "xi"), None)
             o["cfg"] = cfg
             o["start"] = start
-            o["fresh"] = _fresh(case, int(S.seed), list(S.N_vials), fresh, int(S.seed_v), cfg, start)
+            o["yaml"] = yamlover
+            o["fresh"] = _fresh(case, int(S.seed), list(S.N_vials), fresh, int(S.seed_v), cfg, start, yamlover)
         ops_obs.append(o)
     return ops_obs
 
@@ -413,11 +468,16 @@ def _run_history(case, store=None):
 def _run_fall(case):
     from ethz_snow.snowfall import Snowfall
 
-    if case.get("decoy_start") is not None:
-        # another object built earlier in this process, for another start temperature
-        _flake(case, 1, case["nv"], start=case["decoy_start"])
+    if case.get("decoy_start") is not None or case.get("decoy_yaml"):
+        # another object built earlier in this process: other start temperature / custom configuration file
+        _flake(case, 1, case["nv"], start=case.get("decoy_start"), yamlover=case.get("decoy_yaml"))
     kw = _kw(case)
     kw.setdefault("dt", DT)
+    ini = _init_temp(case, False, None)
+    if ini is not None:
+        kw["initialStates"] = ini
+    if case.get("yaml") and "configPath" not in kw:
+        kw["configPath"] = _yaml_for(case["yaml"], False)
     mark = _begin()
     F = Snowfall(Nrep=case["nrep"], pool_size=case["pool"], k=_k(case), N_vials=tuple(case["nv"]),
                  opcond=_opcond(_spec(case, 0, case.get("start"))), **kw)
@@ -433,7 +493,8 @@ def _run_fall(case):
             t = st.pop("_c04")
             t["seed"] = int(i)
             t["digest_parent"] = _digest(st)
-            t["fresh"] = _fresh(case, int(i), case["nv"], fresh, (case.get("kw") or {}).get("seed_v"), 0, case.get("start"))
+            t["fresh"] = _fresh(case, int(i), case["nv"], fresh, (case.get("kw") or {}).get("seed_v"), 0, case.get("start"),
+                                case.get("yaml"))
             tasks.append(t)
         # chunks: tasks grouped by the object copy they ran on, in execution order
         groups = {}
@@ -566,7 +627,7 @@ def compare(case, impl, model):
             _cmp_trace(impl["ops"], model["trace_old"], d_old)
             if not d_old:
                 dis[0] = "implementation follows the PRE-REPAIR model (runOld, defect F3), not the repaired one: " + dis[0]
-        _same_sched_same_stats([([o["sched"], o["xi"], o["cfg"], o["start"]], o["digest"]) for o in impl["ops"] if o["op"][0] == "run"], dis)
+        _same_sched_same_stats([([o["sched"], o["xi"], o["cfg"], o["start"], o["yaml"]], o["digest"]) for o in impl["ops"] if o["op"][0] == "run"], dis)
     elif case["kind"] == "record":
         for v in impl["variants"]:
             _cmp_trace(v["ops"], model["trace"], dis, where=f"storeStates={v['store']!r}: ")
@@ -630,7 +691,8 @@ def predicates(case, impl):
             if o["op"][0] == "run" and o["digest"] != o["fresh"]:
                 out.append(Failure(
                     clause="run_schedule_canonical", key=f"history_independent|Snowflake.run|{var}",
-                    detail=f"after {[x['op'] for x in impl['ops'][:i]]} (start temperatures of the objects built: {case.get('starts')}) "
+                    detail=f"after {[x['op'] for x in impl['ops'][:i]]} (objects built for start temperatures {case.get('starts')}, "
+                           f"configuration files {case.get('configs')}, initial temperature given as {case.get('init')}) "
                            f"the run with seed {o['seed']}, seed_v {o['seed_v']}, N_vials "
                            f"{o['sched']['nv']}, configuration {o['cfg']} = {_spec(case, o['cfg'])} differs bit-wise from a fresh "
                            f"Snowflake(seed={o['seed']}, seed_v={o['seed_v']}) of that configuration "
@@ -761,7 +823,22 @@ def _targeted(rng):
     s0, s1 = rng.choice(SEEDS), rng.choice(SEEDS)
     a, b = rng.choice([([3, 2, 1], [2, 3, 1]), ([2, 3, 1], [3, 2, 1]), ([3, 3, 1], [2, 2, 1]), ([2, 2, 1], [1, 3, 1])])
     v = rng.choice([2, 7])
-    k = rng.randrange(12)
+    k = rng.randrange(16)
+    if k >= 14:
+        # a (1,1,1) batch whose initial temperature is a one-element sequence / numpy scalar, run repeatedly
+        init = dict(form=rng.choice(["list", "tuple", "array", "npfloat", "intarray"]), value=rng.choice([5, 3, 5.0, 2]))
+        nv1 = rng.choice([[1, 1, 1], [1, 1, 1], [2, 1, 1], [2, 2, 1]])
+        return dict(kind="history", sigma=sigma, cfgs=_cfg_specs(rng), init=init,
+                    ops=[["new", s0] + nv1, ["run"], ["run"]] if k == 14 else
+                        [["new", s0] + nv1, ["run"], ["setSeed", s1], ["run"], ["setSeed", s0], ["run"]])
+    if k >= 12:
+        # an object built from a CUSTOM YAML overriding one nested key, then objects with the packaged defaults /
+        # with a custom file that does not touch that key
+        over = rng.choice([{"solution.solid_fraction": 0.1}, {"water.cp_w": 4000}, {"kinetics.b": 30.0}])
+        other = rng.choice([None, None, {"water.cp_w": 4100} if "water.cp_w" not in over else {"kinetics.b": 29.0}])
+        return dict(kind="history", sigma=sigma, cfgs=_cfg_specs(rng), configs=[over, other],
+                    ops=[["new", s0] + a, ["run"], ["new", s1] + a, ["run"]] if k == 12 else
+                        [["new", s0] + a, ["new", s1] + b, ["run"], ["new", s0] + a, ["setSeed", s1], ["run"]])
     if k >= 10:
         # two objects constructed one after the other in this process, for different start temperatures
         T1, T2 = rng.sample([8, 5, 2, 0, -2], 2)
@@ -857,6 +934,14 @@ def cases(rng, tier):
                 continue
             yield dict(kind="fall", sigma=rng.choice([0.1, 0]), nv=rng.choice([[3, 3, 1], [2, 2, 1], [2, 3, 1]]), nrep=3,
                        pool=2, hows=[how], kw=kw, start=rng.choice([None, 8, 2]), decoy_start=rng.choice([None, 0, 6]))
+    # Snowfall on a (1,1,1) batch with a one-element initial temperature; Snowfall after an object with a custom YAML
+    for how in ("sequential", "async", "sync"):
+        yield dict(kind="fall", sigma=0, nv=[1, 1, 1], nrep=3, pool=2, hows=[how],
+                   init=dict(form=rng.choice(["list", "array", "tuple"]), value=5))
+        yield dict(kind="fall", sigma=rng.choice([0.1, 0]), nv=[2, 2, 1], nrep=2, pool=2, hows=[how],
+                   decoy_yaml={"solution.solid_fraction": 0.12}, yaml=rng.choice([None, {"water.cp_w": 4050}]))
+    yield dict(kind="fall", sigma=0, nv=[1, 1, 1], nrep=3, pool=2, hows=["sequential", "async"],
+               init=dict(form="list", value=5))
     # one Snowfall object run several times (sequential mutates the template)
     for hows in (["sequential", "sequential"], ["sequential", "async"], ["async", "sequential", "sync"]):
         for sigma in (0.1, 0):
